@@ -67,6 +67,7 @@ def run_shard(ctx):
             pass
         ctx.case(f"id|{gg.key(gd)}|{q['X']}|{q['Y']}|{q['Z']}", res is not None and _nleaves(res) >= 2,
                  sample={"entry": "ID/IDC", "graph": gd, **{k: q[k] for k in "XYZ"}, "estimand": str(res)})
+    pool: list = []
     for i in range(ctx.share({"quick": 2500, "thorough": 60000}[ctx.tier])):
         bc = c05.biased_case(rng) if i % 3 else None
         if bc is None:
@@ -89,6 +90,43 @@ def run_shard(ctx):
             pass
         ctx.case(f"trso|{gg.key(gd)}|{q['X']}|{q['Y']}|{sorted(doms.items())}", res is not None and _nleaves(res) >= 2,
                  sample={"entry": "TRSO", "graph": gd, "X": q["X"], "Y": q["Y"], "domains": doms, "estimand": str(res)})
+        if "trso_line10" in mon_trso.FACTS.get("lines", ()):
+            pool.append((gd, q, doms))
+    # feedback towards line 10 inside / after a source domain (vocabulary regressions hide in that rare branch)
+    for i in range(ctx.share({"quick": 4000, "thorough": 100000}[ctx.tier])):
+        if pool and rng.random() < 0.9:
+            gd, q, doms = rng.choice(pool)
+            gd = gg.mutate(gd, rng)
+            if rng.random() < 0.3:
+                q = gq.random_query(rng, gd) or q
+            if not (set(q["X"]) | set(q["Y"])) <= set(gd["nodes"]):
+                continue
+            if rng.random() < 0.6:
+                doms = c05.random_domains(rng, gd, q, True)
+            if any(not set(z + w) <= set(gd["nodes"]) for z, w in doms.values()):
+                continue
+        else:
+            bc = c05.biased_case(rng)
+            if bc is None:
+                continue
+            gd, q = bc
+            doms = c05.random_domains(rng, gd, q, True)
+        g = gg.to_nx(gd)
+        kernel.LOG.reset_case({"graph": gd, "X": q["X"], "Y": q["Y"], "domains": doms})
+        res = None
+        try:
+            res = identify_target_outcomes(
+                g, target_outcomes={Variable(y) for y in q["Y"]}, target_interventions={Variable(x) for x in q["X"]},
+                surrogate_outcomes={Variable(p): {Variable(w) for w in zw[1]} for p, zw in doms.items()},
+                surrogate_interventions={Variable(p): {Variable(z) for z in zw[0]} for p, zw in doms.items()})
+        except Exception:  # noqa: BLE001
+            pass
+        ctx.case(f"trso|{gg.key(gd)}|{q['X']}|{q['Y']}|{sorted(doms.items())}", res is not None and _nleaves(res) >= 2)
+        if "trso_line10" in mon_trso.FACTS.get("lines", ()):
+            if len(pool) < 300:
+                pool.append((gd, q, doms))
+            else:
+                pool[rng.randrange(len(pool))] = (gd, q, doms)
     for i in range(ctx.share({"quick": 3000, "thorough": 60000}[ctx.tier])):
         gd = gg.random_admg(rng, rng.choice([2, 3, 4, 4, 5]))
         g = gg.to_nx(gd)
